@@ -270,6 +270,8 @@ def eq(ctx: Ctx, a, b):
     """python == as python bool or z3 Bool.  Never forks."""
     if type(a).__name__ == "Bottom" or type(b).__name__ == "Bottom":
         return False
+    if a is b and isinstance(a, (SymMsg, SymOpaque, SObj, PList, PDict, SymSeq, SymStr, SymInt, SymBool, SymBytes)):
+        return True
     if not is_sym(a) and not is_sym(b) and not isinstance(a, (SObj, PList, PDict)) and not isinstance(
         b, (SObj, PList, PDict)
     ):
@@ -355,6 +357,14 @@ def eq(ctx: Ctx, a, b):
             if len(a.items) != len(b.items):
                 return False
             return _and([eq(ctx, x, y) for x, y in zip(a.items, b.items)])
+        # one side (partly) symbolic: compare as sequences
+        ref = sa or sb
+        try:
+            if ref is not None:
+                ea, eb = to_seq(ctx, a, like=ref), to_seq(ctx, b, like=ref)
+                return ea.e == eb.e
+        except Unsupported:
+            pass
         raise Unsupported(f"== between {a!r} and {b!r}")
     if isinstance(a, PDict) and isinstance(b, PDict):
         if set(a.items) != set(b.items):
@@ -435,6 +445,8 @@ def compare(ctx: Ctx, op, a, b):
             r = (not r) if isinstance(r, bool) else z3.Not(r)
         return r
     if isinstance(op, (ast.Lt, ast.LtE, ast.Gt, ast.GtE)):
+        if type(a).__name__ == "Bottom" or type(b).__name__ == "Bottom":
+            return False
         if isinstance(a, SymAny) or isinstance(b, SymAny):
             # int-like application values compare as ints; anything else against an int is a TypeError
             def conv(x):
@@ -619,13 +631,18 @@ def to_seq(ctx: Ctx, v, like: SymSeq = None) -> SymSeq:
 
     if isinstance(v, SymSeq):
         return v
-    if isinstance(v, PList) and v.sym is not None:
+    if isinstance(v, PList) and v.sym is not None and not v.items:
         return v.sym
+    if isinstance(v, PList) and v.sym is not None:
+        head = to_seq(ctx, PList(v.items), like=v.sym)
+        return SymSeq(z3.Concat(head.e, v.sym.e), v.sym.elem)
     items = v.items if isinstance(v, PList) else list(v)
     elem = like.elem if like is not None else None
     if elem is None:
         if items and isinstance(items[0], tuple):
             elem = "pair"
+        elif items and kind_of_strlike(items[0]):
+            elem = "str" if kind_of_strlike(items[0]) == "str" else "bstr"
         else:
             raise Unsupported(f"cannot infer element sort of {v!r}")
     if elem == "pair":
@@ -648,10 +665,19 @@ def to_seq(ctx: Ctx, v, like: SymSeq = None) -> SymSeq:
 
             units.append(z3.Unit(Pair.mk(comp(it[0]), comp(it[1]))))
         return SymSeq(units[0] if len(units) == 1 else z3.Concat(*units), "pair")
+    if elem in ("str", "bstr"):
+        from .sym import StrSeq
+
+        if not items:
+            return SymSeq(z3.Empty(StrSeq), elem)
+        units = [z3.Unit(str_to_z3(it)) for it in items]
+        return SymSeq(units[0] if len(units) == 1 else z3.Concat(*units), elem)
     raise Unsupported(f"to_seq elem {elem}")
 
 
 def length(ctx: Ctx, v):
+    if type(v).__name__ == "Bottom":
+        return v
     if isinstance(v, (str, bytes, bytearray, tuple)):
         return len(v)
     if isinstance(v, SymStr):
@@ -660,6 +686,8 @@ def length(ctx: Ctx, v):
         return mk_int(v.n)
     if isinstance(v, SymSeq):
         return mk_int(z3.Length(v.e))
+    if isinstance(v, z3.SeqRef):
+        return mk_int(z3.Length(v))
     if isinstance(v, PList):
         if v.sym is not None:
             return mk_int(z3.Length(v.sym.e))
